@@ -17,12 +17,27 @@ CONSTANTS OPS,        \* operation names
           REPACTS,    \* enabled representation actions (subset of the names below)
           EDITACTS,   \* enabled edit / history actions
           MAXLEN,     \* maximal program length (number of actions before the observed call)
-          NVER, NGRID \* content versions / direction grids available to the edits
+          NVER, NGRID,\* content versions / direction grids available to the edits
+          DERIVES     \* enabled derivation steps (the object becomes the RESULT of a public operation)
 
 RepActs == {"transpose_df", "transpose_lead", "fortran", "strided", "cast32", "bigendian", "roll1", "roll_seam", "flip", "sortdir",
             "chunk_lead", "chunk_freq", "chunk_dir", "chunk_all1"}
 EditActs == {"access", "call_other", "set_efth", "set_dir", "set_freq", "call_unknown", "other_shape", "reader_calls"}
-ASSUME REPACTS \subseteq RepActs /\ EDITACTS \subseteq EditActs
+\* Derivations: the session continues on what a public operation (or an xarray selection / arithmetic / concatenation) returned.
+\* Contents become a function of the previous contents (`via` records which), the dimensions change as DimsAfter says, and the
+\* representation is whatever the library produced - the specification says nothing about it, which is the point: the next call's
+\* observation is still a function of the contents only.
+Derives == {"isel_time_list", "isel_time_scalar", "sel_dirs", "sel_dir_one", "isel_freq_slice", "sel_freq_one", "smooth", "interp", "split", "rotate",
+            "ptm3", "bbox", "oned", "times2", "concat", "expand_site", "expand_site_last", "readonly", "sortby_time_desc", "where", "scale_by_hs"}
+NeedsDir == {"sel_dirs", "sel_dir_one", "rotate", "oned", "ptm3", "bbox", "smooth", "interp"}
+NeedsTime == {"isel_time_list", "isel_time_scalar", "concat", "sortby_time_desc"}
+AddsPart == {"ptm3", "bbox"}
+AddsSite == {"expand_site", "expand_site_last"}
+CanDerive(t, ds) == /\ (t \in NeedsDir => "dir" \in ds) /\ (t \in NeedsTime => "time" \in ds)
+                    /\ (t \in AddsPart => "part" \notin ds) /\ (t \in AddsSite => "site" \notin ds)
+DimsAfter(t, ds) == CASE t = "isel_time_scalar" -> ds \ {"time"} [] t = "oned" -> ds \ {"dir"}
+                      [] t \in AddsPart -> ds \cup {"part"} [] t \in AddsSite -> ds \cup {"site"} [] OTHER -> ds
+ASSUME REPACTS \subseteq RepActs /\ EDITACTS \subseteq EditActs /\ DERIVES \subseteq Derives
 
 VARIABLES rep,     \* representation record
           ver,     \* contents: [efth |-> version, grid |-> direction grid]
@@ -32,10 +47,10 @@ VARIABLES rep,     \* representation record
 vars == <<rep, ver, path, obs, frame>>
 
 Rep0 == [dimorder |-> "lead_freq_dir", layout |-> "C", width |-> 64, endian |-> "native", roll |-> 0, flip |-> FALSE, chunks |-> "none"]
-Init == rep = Rep0 /\ ver = [efth |-> 1, grid |-> 1, fgrid |-> 1] /\ path = <<>> /\ obs = <<>> /\ frame = TRUE
+Init == rep = Rep0 /\ ver = [efth |-> 1, grid |-> 1, fgrid |-> 1, via |-> <<>>, dims |-> {"time", "freq", "dir"}] /\ path = <<>> /\ obs = <<>> /\ frame = TRUE
 
 Rec(a, x) == [act |-> a, arg |-> x]
-Apply(op, v) == <<op, v.efth, v.grid, v.fgrid>>          \* the abstract result: contents and operation, nothing else
+Apply(op, v) == <<op, v.efth, v.grid, v.fgrid, v.via>>          \* the abstract result: contents and operation, nothing else
 
 DoRep(a) ==
   /\ a \in REPACTS /\ Len(path) < MAXLEN /\ obs = <<>>
@@ -68,6 +83,13 @@ DoEdit(a) ==
      \/ /\ a = "set_freq" /\ ver' = [ver EXCEPT !.fgrid = 3 - @] /\ path' = Append(path, Rec(a, 3 - ver.fgrid))     \* obj['freq'] = ... (two frequency grids)
   /\ UNCHANGED <<rep, obs, frame>>
 
+DoDerive(t) ==
+  /\ t \in DERIVES /\ Len(path) < MAXLEN /\ obs = <<>> /\ CanDerive(t, ver.dims)
+  /\ ver' = [ver EXCEPT !.via = Append(@, t), !.dims = DimsAfter(t, @)]
+  /\ rep' = [rep EXCEPT !.layout = "asproduced"]
+  /\ path' = Append(path, Rec("derive", t))
+  /\ UNCHANGED <<obs, frame>>
+
 Call(op) ==
   /\ obs = <<>> /\ op \in OPS
   /\ obs' = Apply(op, ver)
@@ -75,11 +97,13 @@ Call(op) ==
   /\ frame' = TRUE                                  \* a call changes neither representation nor contents
   /\ UNCHANGED <<rep, ver>>
 
-Next == (\E a \in REPACTS : DoRep(a)) \/ (\E a \in EDITACTS : DoEdit(a)) \/ (\E op \in OPS : Call(op))
+Next == (\E a \in REPACTS : DoRep(a)) \/ (\E a \in EDITACTS : DoEdit(a)) \/ (\E t \in DERIVES : DoDerive(t)) \/ (\E op \in OPS : Call(op))
 Spec == Init /\ [][Next]_vars
 
 \* results depend on the present contents and the call's arguments only (C05, C18): whatever path led here
 ResultIsFunctionOfContents == obs # <<>> => obs = Apply(obs[1], ver)
+\* a derivation never yields an object the model cannot name the dimensions of: spectra always keep their frequencies
+DerivedKeepFreq == "freq" \in ver.dims
 \* frame condition of every call (C17)
 CallsDoNotModify == [][(obs' # obs) => (rep' = rep /\ ver' = ver)]_vars
 EmitInv == obs # <<>> => PrintT(ToJson([path |-> path, rep |-> rep, ver |-> ver, op |-> obs[1]]))
